@@ -70,3 +70,11 @@ func TestC03Chain(t *testing.T) {
 		return runTSS(c, tssObs{c03: true}, func(w *tssWorld) bool { return c.T >= 2 && w.corruptTried >= 1 })
 	})
 }
+
+// C09 (signers): the members assigned to every signing attempt equal the sampling specification.
+func TestC09Signers(t *testing.T) {
+	prof := tssProfile{wDes: 14, wReset: 3, wReq: 26, wSig: 6, wSigAll: 12, wEnd: 28, wAct: 8, wOracle: 3}
+	pbt.Check(t, "C09", func(rt *rapid.T) tssCase { return genTSSCase(rt, prof) }, func(c tssCase) *pbt.Verdict {
+		return runTSS(c, tssObs{c09: true}, func(w *tssWorld) bool { return w.c09Choice && w.c.N >= 4 })
+	})
+}
